@@ -112,6 +112,21 @@ func init() {
 			// squares and near-squares
 			keys = append(keys, key{new(big.Int).Mul(base, base), 65537, fmt.Sprintf("square rounds %d", rounds), rounds})
 		}
+		// a ladder of prime gaps over every magnitude: p - q at four places inside every octave 2^k .. 2^(k+1) for k = 20 .. 79 (dense where the
+		// half-difference squared crosses machine-word sizes), found by Fermat's method in the first round whatever the size
+		{
+			base := nextPrime(rnd(520))
+			for k := 20; k < 80; k++ {
+				if tier() != "thorough" && k%3 != 0 && !(k >= 28 && k <= 36) && !(k >= 60 && k <= 68) {
+					continue
+				}
+				for _, m := range []int64{128, 160, 182, 224} {
+					gap := new(big.Int).Div(new(big.Int).Mul(pow(k), big.NewInt(m)), big.NewInt(128))
+					q := nextPrime(new(big.Int).Add(base, gap))
+					keys = append(keys, key{new(big.Int).Mul(base, q), 65537, fmt.Sprintf("fermat gap ladder 2^%d * %d/128 rounds 1", k, m), 1})
+				}
+			}
+		}
 		// small composites where the loop boundary is easy to hit exactly: p*q with (p+q)/2 - sqrt steps = k
 		for _, pq := range [][2]int64{{101, 103}, {1009, 1013}, {10007, 10009}, {65537, 65539}, {1000003, 1000033}, {7919, 104729}, {3, 5}, {3, 1000003}} {
 			n := new(big.Int).Mul(big.NewInt(pq[0]), big.NewInt(pq[1]))
